@@ -151,13 +151,8 @@ def theorem_statement(module, name):
     return re.sub(r'\s+', ' ', m.group(1))[:600] if m else ''
 
 
-def run_driver(lines, timeout=3000):
-    """Feed op lines to the compiled model driver; one output line per input."""
+def _run_driver1(lines, timeout):
     exe = os.path.join(LEAN, '.lake', 'build', 'bin', 'driver')
-    if not os.path.exists(exe):
-        ok, log, _ = lean_build([])
-        if not ok:
-            raise RuntimeError('driver build failed: ' + log)
     inp = '\n'.join(lines) + '\n'
     p = subprocess.run([exe], input=inp, capture_output=True, text=True,
                        timeout=timeout)
@@ -171,6 +166,30 @@ def run_driver(lines, timeout=3000):
             f'driver produced {len(out)} lines for {len(lines)} ops; '
             f'last: {out[-1:]}')
     return out
+
+
+def run_driver(lines, timeout=3000, jobs=1):
+    """Feed op lines to the compiled model driver; one output line per input.
+    With jobs > 1 the lines are dealt round-robin to parallel driver
+    processes."""
+    exe = os.path.join(LEAN, '.lake', 'build', 'bin', 'driver')
+    if not os.path.exists(exe):
+        ok, log, _ = lean_build([])
+        if not ok:
+            raise RuntimeError('driver build failed: ' + log)
+    if not lines:
+        return []
+    jobs = max(1, min(jobs, len(lines)))
+    if jobs == 1:
+        return _run_driver1(lines, timeout)
+    from concurrent.futures import ThreadPoolExecutor
+    parts = [lines[k::jobs] for k in range(jobs)]
+    with ThreadPoolExecutor(jobs) as ex:
+        outs = list(ex.map(lambda ls: _run_driver1(ls, timeout), parts))
+    res = [None]*len(lines)
+    for k, o in enumerate(outs):
+        res[k::jobs] = o
+    return res
 
 
 # --------------------------------------------------------------------------
